@@ -208,6 +208,94 @@ def spectravoice_views(res, seed):
                 break
 
 
+def object_histories(res, seed):
+    """Objects with a past, written and held against the format: (1) patterns whose declared size was changed after their cells
+    existed and that were then cleared (the documented way to get a grid of the new size): the note block is lines x tracks x 8
+    bytes; (2) Samplers that received chunks through the public load_chunk() hook, or came from a file whose writer left the
+    instrument record out, then edited: the written module carries its 400-byte instrument record."""
+    import random as _r
+    import rv.api as api
+    from rv.modules import Chunk
+    rng = _r.Random(seed * 17 + 3)
+    for k in range(30):
+        p = api.Project()
+        pat = api.Pattern(tracks=rng.randint(1, 6), lines=rng.randint(1, 8))
+        p.attach_pattern(pat)
+        for line in pat.data:
+            for n in line:
+                n.vel = rng.randrange(130)
+        how = rng.choice(("tracks", "lines", "both"))
+        if how in ("tracks", "both"):
+            pat.tracks = rng.choice([t for t in range(1, 8) if t != pat.tracks])
+        if how in ("lines", "both"):
+            pat.lines = rng.choice([t for t in range(1, 10) if t != pat.lines])
+        pat.clear()
+        case = {"family": "object-histories", "kind": "pattern-resized-and-cleared", "changed": how, "tracks": pat.tracks, "lines": pat.lines}
+        shape = (len(pat.data), sorted(set(len(r_) for r_ in pat.data)))
+        if shape != (pat.lines, [pat.tracks]):
+            res.violation("C03:structure:PDTA-size", f"after resizing ({how}) and clear() the grid is {shape[0]} x {shape[1]}, declared are {pat.lines} lines x {pat.tracks} tracks", case)
+            continue
+        if rng.random() < 0.5:
+            pat.data[pat.lines - 1][pat.tracks - 1].vel = 7
+        res.count("resized_cleared_patterns")
+        try:
+            raw = p.read()
+        except Exception as e:
+            res.violation(f"C03:save-raises:{workload.exc_key(e)}", f"pattern resized ({how}) and cleared: saving raised {e!r}", case)
+            continue
+        judge(res, raw, build.norm(snapshot.snap_project(p), "before"), case, "pattern-resized-and-cleared", obj=p)
+        pdta = [c[1] for c in iffparse.parse(raw) if c[0] == b"PDTA"]
+        if not pdta or len(pdta[0]) != pat.lines * pat.tracks * 8:
+            res.violation("C03:structure:PDTA-size", f"pattern declared {pat.lines} lines x {pat.tracks} tracks after resizing ({how}) and clear(): PDTA has {len(pdta[0]) if pdta else None} bytes, "
+                                                     f"expected {pat.lines * pat.tracks * 8}", case)
+    for hname in ("handed-a-chunk", "file-without-record"):
+        for k in range(4):
+            try:
+                if hname == "handed-a-chunk":
+                    src = api.m.Sampler()
+                    src.volume_envelope.points = [(0, 0x8000), (16, 0x4000), (64, 0)]
+                    pairs = dict(src.volume_envelope.chunks())
+                    ch = Chunk()
+                    ch.chnm = int.from_bytes(pairs[b"CHNM"], "little")
+                    ch.chdt = pairs[b"CHDT"]
+                    smp = api.m.Sampler()
+                    smp.load_chunk(ch)
+                else:
+                    chunks = [(c[0], c[1]) for c in iffparse.parse(api.Synth(api.m.Sampler()).read())]
+                    out, skip = [], False
+                    for cid, pl in chunks:
+                        if cid == b"CHNM":
+                            skip = pl == bytes(4)
+                        if skip and cid in (b"CHNM", b"CHDT", b"CHFF", b"CHFR"):
+                            continue
+                        skip = False
+                        out.append((cid, pl))
+                    smp = workload.load(iffparse.build(out)).module
+                smp.vibrato_depth = 40 + k
+                smp.volume_fadeout = 1000 + k
+                s_ = smp.Sample()
+                s_.data, s_.format, s_.channels = bytes(range(16)), smp.Format.int8, smp.Channels.mono
+                smp.samples[k] = s_
+                syn = api.Synth(smp)
+                raw = syn.read()
+            except Exception as e:
+                res.violation(f"C03:save-raises:{workload.exc_key(e)}", f"Sampler ({hname}), edited: {e!r}", {"family": "object-histories", "kind": hname})
+                continue
+            case = {"family": "object-histories", "kind": "sampler:" + hname}
+            res.count("sampler_histories_written")
+            judge(res, raw, build.norm(snapshot.snap_synth(syn), "before"), case, "sampler:" + hname)
+            recs = []
+            cur = None
+            for cid, pl, *_x in iffparse.parse(raw):
+                if cid == b"CHNM":
+                    cur = int.from_bytes(pl, "little")
+                elif cid == b"CHDT" and cur == 0:
+                    recs.append(pl)
+            if not recs or len(recs[0]) < 0x190:
+                res.violation("C03:structure:sampler-record-missing", f"Sampler ({hname}), edited and saved: the module carries {'no' if not recs else 'a ' + str(len(recs[0])) + '-byte'} "
+                                                                      f"instrument record (CHNM 0), documented are 400 bytes", case)
+
+
 def calibrate(res):
     """The oracle must agree with rv's reader on SunVox-written files before it judges anything."""
     ok = 0
@@ -494,6 +582,7 @@ def run_shard(spec_, res):
             res.count("loaded_edited_files")
     if spec_["shard"] == 1:
         spectravoice_views(res, seed)
+        object_histories(res, seed)
     if spec_["shard"] == 0:
         os_texts(res)
         res.sample({"origin": "synth:Sampler", "checked": ["chunk stream tiles the file", "400-byte instrument record at documented offsets",
